@@ -2,6 +2,8 @@ import SctpVerif.Proofs.NetSys.LiveDrain
 import SctpVerif.Proofs.NetSys.LiveTaken
 import SctpVerif.Proofs.NetSys.LiveRoundOk
 import SctpVerif.Proofs.NetSys.LiveHonest
+import SctpVerif.Proofs.NetSys.LiveHonestN
+import SctpVerif.Proofs.NetSys.LiveZ
 import SctpVerif.Props.C01sel
 /-!
 # C02 on the composed model — the receiver's own SACKs make the sender-side progress theorems applicable
@@ -71,13 +73,19 @@ cumulative ack point) — and with it `C02_netsys_drains_roundok`: `C02_netsys_d
 by the four readable per-round premises `RoundOkN` (over `Reliable` runs, which abandon nothing: `noab_of_reliable`).
 (b) `C02_netsys_honest_insync`: for runs whose sender only processed SOUND SACKs (`Honest`) `InSync` holds whenever the receive
 queue is pop-normalised — run invariant `run_hl`: every gap-acked in-flight chunk was really received — and
-`C02_netsys_honest_taken` is the one-round statement with `InSync` gone. STILL OPEN: (b') iterating (b) over the healed
-rounds (the truthful SACK is sound, so `HL` is kept; `step_hl` is the step lemma; not assembled into a `drains_honest`);
-(c) `Room` after the application has read everything readable from `FitsBuffer` (`maxMessageSize ≤ maxReceiveBufferSize`): needs
-the CONVERSE of `Reasm.OrdInv.pushed` — every pushed fragment of a message at or above the cursor is in the table — which
-also gives `reads = writes` at the end (`C02_netsys_all_read`, not stated); (d) `HeadOk` and the pop-normalised queue from
-`maxReassemblyQueueEntries = 0` (per-queue invariant `maxEntries = 0`; `Receiver.QPres` quantifies over all entry limits and does
-not apply as it is) — both fail only after a reassembly error, i.e. when the receiver is about to ABORT.
+`C02_netsys_honest_taken` is the one-round statement with `InSync` gone. **Fourth pass.** (b') `C02_netsys_drains_honest`: the iterated drain theorem for `Honest` runs WITHOUT `InSync` — honesty is
+preserved along the healed rounds because the SACK a round hands to the sender is the receiver's truthful one, which is sound
+(`truthful_sound`, `hl_healed`); per-round premises `RoundOkHN` = receiver established, `Room`, `Normal` (receive queue
+pop-normalised), `HeadOk`. (d), partly: `C02_netsys_entry_cap_off_partial` — with `maxReassemblyQueueEntries = 0` every
+reassembly queue of every reachable state has `maxEntries = 0`, `pushWithError` returns no limit error and never panics, a
+chunk `acceptPayloadData` decides to store is stored. STILL OPEN: (d') assembling that into `Normal` as a run invariant (no
+bare `push` in a `handleData` trace ⇒ pop-normalised after every packet) and into `HeadOk` (additionally `willSendAbort =
+false` along the run and non-empty user data of every history chunk); (c) `Room` after the application has read everything
+readable from `FitsBuffer` (`maxMessageSize ≤ maxReceiveBufferSize`): needs the CONVERSE of `Reasm.OrdInv.pushed` — every pushed
+fragment of a message at or above the cursor is in the table — which also gives `reads = writes` at the end
+(`C02_netsys_all_read`, not stated). The strongest drain theorem is `C02_netsys_drains_honest`; its premises beyond the
+standing ones (MTU < 2^30, fragment size fits the MTU, < 2^31 chunks, reliable ordered streams, sound SACK history, sender
+established) are, per round: receiver established, `Room`, `Normal`, `HeadOk`.
 
 **NOT covered**: timers really firing and their back-off bounds ("within a few maximum RTOs": C19 gives the RTO clamp
 `C19_rto_clamp`-style bounds and the timer automaton; a healed round costs at most one T3 period ≤ `rtoMax` plus the 200 ms
@@ -289,6 +297,69 @@ theorem C02_netsys_drains_roundok (P : Params) (ops : List Op) (n : Nat) (hc : S
   C02_netsys_drains_partial P ops n hc hf hN hest hsm
     (takenN_of_roundOkN P hc n ops hN (snd_live P ops hc hf hest hsm) hfit hrel hok) hn
 
+/-- **The healed rounds drain the sender of an HONEST run — `InSync` is no longer a premise.** From every reachable NetSys
+state over reliable ordered streams whose sender only ever processed SOUND SACKs (`Honest ops`, `TsnOk`), sender established:
+`n ≥ pending + in-flight chunks` healed rounds, at the start of each of which (if something is outstanding) the receiver is
+established, has `Room`, its receive queue is pop-normalised (`Normal`) and it does not answer the first delivery with an
+ABORT (`HeadOk`) — `RoundOkHN P n s` — end with both sender queues empty, `Association.BufferedAmount()` = 0, and every
+stream's `BufferedAmount()` = 0 under C15's D9 premise. Honesty is PRESERVED along the rounds: the SACK a healed round hands
+to the sender is the receiver's truthful one, which is sound (`NetSysLive.truthful_sound`, `hl_healed`).
+Premises left, each with the lemma that would remove it (file header): `Room` (from `FitsBuffer` + the reads), `Normal` and
+`HeadOk` (both from `maxReassemblyQueueEntries = 0`: they fail only after a reassembly error). -/
+theorem C02_netsys_drains_honest (P : Params) (ops : List Op) (n : Nat) (hc : SenderProofs.CfgOk P.cfg)
+    (hf : SenderProofs.CfgFit P.cfg) (hN : chunksWritten P ops < 2^31) (hrel : Reliable ops = true)
+    (hts : SenderProofs.TsnOk (Sender.init P.cfg P.tsn P.peerRwnd) (sndOps P (init P).snd ops))
+    (hh : Honest P (init P) ops = true)
+    (hest : (run P (init P) ops).snd.established = true)
+    (hsm : (run P (init P) ops).snd.inflight.length + (run P (init P) ops).snd.pending.length < 2^31)
+    (hok : RoundOkHN P n (run P (init P) ops) = true) (hn : outstanding (run P (init P) ops) ≤ n) :
+    let fin := run P (init P) (ops ++ healedRounds P n (run P (init P) ops))
+    fin = healedN P n (run P (init P) ops) ∧
+    fin.snd.inflight = [] ∧ fin.snd.pending = [] ∧ fin.snd.penBytes + fin.snd.infBytes = 0 ∧
+    (SenderProofs.RunOk (Sender.init P.cfg P.tsn P.peerRwnd)
+        (sndOps P (init P).snd (ops ++ healedRounds P n (run P (init P) ops))) →
+      fin.snd.wrapBuf = false → ∀ si, SenderProofs.bufOf fin.snd si = 0) := by
+  have hM : tsnsUsed P ops < 2^31 := Nat.lt_of_le_of_lt (tsnsUsed_le P ops) hN
+  have hfit : SenderProofs.InfFit (run P (init P) ops).snd := by
+    rw [snd_run]
+    exact SenderProofs.run_inffit _ _ (SenderProofs.init_seq _ _ _) (SenderProofs.init_win _ _ _ hc)
+      (SenderProofs.init_inffit _ _ _) hts
+  exact C02_netsys_drains_roundok P ops n hc hf hN hrel hest hsm hfit
+    (roundOkN_of_honest P hc n ops hN (snd_live P ops hc hf hest hsm) (run_hl P ops hc hM hts hh) hok) hn
+
+/-- **Entry cap off ⇒ no reassembly error** (step towards deriving `HeadOk` and `Normal`). With
+`maxReassemblyQueueEntries = 0` (the default), in EVERY reachable NetSys state: every reassembly queue of the receiver —
+registered or already deleted from the table — has `maxEntries = 0` (`NetSysLive.run_z`), so `pushWithError` returns no
+limit error on any chunk (`pushWithError_z`), it never panics (`C03_recv_total`), and therefore a chunk that
+`acceptPayloadData` decides to store (`Receiver.stores`: a stream object is available and there is credit or the chunk fills a
+gap) IS stored: the call reports success, no ABORT is raised by it and `handleData` goes on to the pop loop.
+PARTIAL with respect to (d): the two consequences are not assembled — (i) `Normal` as a run invariant (every `handleData`
+trace is then `data`, never a bare `push`, so the queue is pop-normalised after every packet: `popAllS_done`), (ii) `HeadOk`,
+which additionally needs `willSendAbort = false` as a run invariant and "every chunk of the history decodes to non-empty user
+data" (`toWire` of a written fragment; available inside the C01 proof as `toWire_data`). -/
+theorem C02_netsys_entry_cap_off_partial (P : Params) (h0 : P.maxEntries = 0) (ops : List Op) (c : Reasm.Chunk)
+    (hst : Receiver.stores (run P (init P) ops).rcv c = true) :
+    (∀ x ∈ (run P (init P) ops).rcv.streams ++ (run P (init P) ops).rcv.gone, x.q.maxEntries = 0 ∧
+      (x.q.pushWithError c).2.2 = .none) ∧
+    (Receiver.acceptPayloadData (run P (init P) ops).rcv c).2 = true := by
+  obtain ⟨hme, hz⟩ := run_z P h0 ops
+  have hnp : Receiver.NoPanic (run P (init P) ops).rcv := by
+    rw [run_rcv]; exact Receiver.run_noPanic _ (Receiver.init_noPanic _ _ _ _ _ _ _)
+  refine ⟨?_, accept_stored _ c hme hz hnp hst⟩
+  intro x hx
+  have hzx : Z x.q := by
+    rcases List.mem_append.mp hx with h | h
+    · exact hz.1 x h
+    · exact hz.2 x h
+  have hne : Reasm.NoEmpty x.q := by
+    rcases List.mem_append.mp hx with h | h
+    · exact hnp.2.1 x h
+    · exact hnp.2.2 x h
+  refine ⟨hzx, ?_⟩
+  rcases pushWithError_z x.q c hzx with h | h
+  · exact h
+  · exact absurd h (Reasm.pushWithError_no_panic x.q c hne)
+
 /-- **Safety along the healed rounds**: C01 for the run extended by any number of healed rounds — over reliable ordered
 streams with FIFO selection (the healed rounds select FIFO and open no stream), what the application has read on a stream is
 a prefix of what was written on it. (`C01_netsys_prefix_fifo` for the extended operation list; its hypotheses are
@@ -412,6 +483,20 @@ example :
     let bad := [Op.snd (.openS 1 false 0 0 0), .write 1 51, .snd (.gather Sender.freeOracle [0, 0, 0]),
       .snd (.sack 4294967294#32 65536 [] [])]
     Honest PD (init PD) bad = false ∧ InSync (run PD (init PD) bad) = false := by decide
+
+-- non-vacuity of `C02_netsys_drains_honest` (n = 9): honest history, `RoundOkHN` decided on the run
+set_option maxRecDepth 1000000 in
+example :
+    let fin := run PD (init PD) (ops0 ++ healedRounds PD 9 (run PD (init PD) ops0))
+    fin.snd.inflight = [] ∧ fin.snd.pending = [] ∧ fin.snd.penBytes + fin.snd.infBytes = 0 :=
+  let h := C02_netsys_drains_honest PD ops0 9 (by unfold SenderProofs.CfgOk; decide) (by unfold SenderProofs.CfgFit; decide)
+    (by decide) (by decide) (by decide) (by decide) (by decide) (by decide) (by decide) (by decide)
+  ⟨h.2.1, h.2.2.1, h.2.2.2.1⟩
+
+-- non-vacuity of `C02_netsys_entry_cap_off_partial`: the example state, the next chunk of the history
+set_option maxRecDepth 1000000 in
+example : (Receiver.acceptPayloadData (run PD (init PD) ops0).rcv (toWire PD ((run PD (init PD) ops0).wire[0]!))).2 = true :=
+  (C02_netsys_entry_cap_off_partial PD rfl ops0 _ (by decide)).2
 
 -- non-vacuity of `C02_netsys_delivered_prefix`
 set_option maxRecDepth 1000000 in
